@@ -177,7 +177,7 @@ def r1(db, rep):
                        f"{name}: `{r['from']} as {r['ty']}` at {f.file}:{s.get('ln')} saturates for out-of-range values before any "
                        f"modular step — ECMAScript's ToInt/ToUint conversions wrap (e.g. 3.5e38 must become 0, 239 as int8 "
                        f"must become -17)", loc=f"{f.file}:{s.get('ln')}")
-    rep.floor("R1", "float-to-int casts on conversion paths", n, 20)
+    rep.floor("R1", "float-to-int casts on conversion paths", n, 16)
 
 
 def r2(db, rep):
